@@ -5,20 +5,20 @@ package rules
 // user-function calls with argument roles, callbacks with argument roles, returned roles). It was produced by
 // `cachelint tables` on the repaired tree and checked row by row against the TTL-map semantics of C01/C06/C07/C09
 // (DESIGN.md C01.T3). Legend: A absent, L0 present/never expires, L+ present/unexpired, E expired;
-// mapold = the item that operation observed; opq:Exp(x) = expiration(x) of this call; zero = zero value / false / nil.
+// mapold = the item the deciding operation observed (mapold.stale: an item observed by an earlier operation); param:aN = the method's N-th parameter (a0 = receiver); opq:Exp(x) = expiration(x) of this call; zero = zero value / false / nil.
 var goldenTables = map[string]map[string][]string{
 	"Clear": {
 		"-": {"clear; return()"},
 	},
 	"Compute": {
-		"A user=false":  {"user valueFn(zero,zero); store {v=uret:valueFn.0,e=opq:Exp(param:d)}; return(uret:valueFn.0,const:true)"},
-		"A user=true":   {"user valueFn(zero,zero); return(zero,zero)"},
-		"E user=false":  {"user valueFn(zero,zero); store {v=uret:valueFn.0,e=opq:Exp(param:d)}; return(uret:valueFn.0,const:true)"},
-		"E user=true":   {"user valueFn(zero,zero); return(zero,zero)"},
-		"L+ user=false": {"user valueFn(field:v(mapold),const:true); store {v=uret:valueFn.0,e=opq:Exp(param:d)}; return(uret:valueFn.0,const:true)"},
-		"L+ user=true":  {"user valueFn(field:v(mapold),const:true); delete; return(field:v(mapold),zero)"},
-		"L0 user=false": {"user valueFn(field:v(mapold),const:true); store {v=uret:valueFn.0,e=opq:Exp(param:d)}; return(uret:valueFn.0,const:true)"},
-		"L0 user=true":  {"user valueFn(field:v(mapold),const:true); delete; return(field:v(mapold),zero)"},
+		"A user=false":  {"user a2(zero,zero); store {v=uret:a2.0,e=opq:Exp(param:a3)}; return(uret:a2.0,const:true)"},
+		"A user=true":   {"user a2(zero,zero); return(zero,zero)"},
+		"E user=false":  {"user a2(zero,zero); store {v=uret:a2.0,e=opq:Exp(param:a3)}; return(uret:a2.0,const:true)"},
+		"E user=true":   {"user a2(zero,zero); return(zero,zero)"},
+		"L+ user=false": {"user a2(field:v(mapold),const:true); store {v=uret:a2.0,e=opq:Exp(param:a3)}; return(uret:a2.0,const:true)"},
+		"L+ user=true":  {"user a2(field:v(mapold),const:true); delete; return(field:v(mapold),zero)"},
+		"L0 user=false": {"user a2(field:v(mapold),const:true); store {v=uret:a2.0,e=opq:Exp(param:a3)}; return(uret:a2.0,const:true)"},
+		"L0 user=true":  {"user a2(field:v(mapold),const:true); delete; return(field:v(mapold),zero)"},
 	},
 	"Count": {
 		"": {"return(size)"},
@@ -28,11 +28,11 @@ var goldenTables = map[string]map[string][]string{
 	},
 	"Delete": {
 		"A":              {"return()"},
-		"E cbnil=false":  {"callback(param:k,field:v(mapold)); return()"},
+		"E cbnil=false":  {"callback(param:a1,field:v(mapold)); return()"},
 		"E cbnil=true":   {"return()"},
-		"L+ cbnil=false": {"delete; callback(param:k,field:v(mapold)); return()"},
+		"L+ cbnil=false": {"delete; callback(param:a1,field:v(mapold)); return()"},
 		"L+ cbnil=true":  {"delete; return()"},
-		"L0 cbnil=false": {"delete; callback(param:k,field:v(mapold)); return()"},
+		"L0 cbnil=false": {"delete; callback(param:a1,field:v(mapold)); return()"},
 		"L0 cbnil=true":  {"delete; return()"},
 	},
 	"DeleteExpired": {
@@ -53,34 +53,34 @@ var goldenTables = map[string]map[string][]string{
 	},
 	"GetAndDelete": {
 		"A":              {"return(zero,zero)"},
-		"E cbnil=false":  {"callback(param:k,field:v(mapold)); return(zero,zero)"},
+		"E cbnil=false":  {"callback(param:a1,field:v(mapold)); return(zero,zero)"},
 		"E cbnil=true":   {"return(zero,zero)"},
-		"L+ cbnil=false": {"delete; callback(param:k,field:v(mapold)); return(field:v(mapold),const:true)"},
+		"L+ cbnil=false": {"delete; callback(param:a1,field:v(mapold)); return(field:v(mapold),const:true)"},
 		"L+ cbnil=true":  {"delete; return(field:v(mapold),const:true)"},
-		"L0 cbnil=false": {"delete; callback(param:k,field:v(mapold)); return(field:v(mapold),const:true)"},
+		"L0 cbnil=false": {"delete; callback(param:a1,field:v(mapold)); return(field:v(mapold),const:true)"},
 		"L0 cbnil=true":  {"delete; return(field:v(mapold),const:true)"},
 	},
 	"GetAndRefresh": {
 		"A":  {"return(zero,zero)"},
 		"E":  {"return(zero,zero)"},
-		"L+": {"store {v=field:v(mapold),e=opq:Exp(param:d)}; return(field:v(mapold),const:true)"},
-		"L0": {"store {v=field:v(mapold),e=opq:Exp(param:d)}; return(field:v(mapold),const:true)"},
+		"L+": {"store {v=field:v(mapold),e=opq:Exp(param:a2)}; return(field:v(mapold),const:true)"},
+		"L0": {"store {v=field:v(mapold),e=opq:Exp(param:a2)}; return(field:v(mapold),const:true)"},
 	},
 	"GetAndSet": {
-		"A":  {"store {v=param:v,e=opq:Exp(param:d)}; return(param:v,zero)"},
-		"E":  {"store {v=param:v,e=opq:Exp(param:d)}; return(param:v,zero)"},
-		"L+": {"store {v=param:v,e=opq:Exp(param:d)}; return(field:v(mapold),const:true)"},
-		"L0": {"store {v=param:v,e=opq:Exp(param:d)}; return(field:v(mapold),const:true)"},
+		"A":  {"store {v=param:a2,e=opq:Exp(param:a3)}; return(param:a2,zero)"},
+		"E":  {"store {v=param:a2,e=opq:Exp(param:a3)}; return(param:a2,zero)"},
+		"L+": {"store {v=param:a2,e=opq:Exp(param:a3)}; return(field:v(mapold),const:true)"},
+		"L0": {"store {v=param:a2,e=opq:Exp(param:a3)}; return(field:v(mapold),const:true)"},
 	},
 	"GetOrCompute": {
-		"A":  {"user valueFn(); store {v=uret:valueFn.0,e=opq:Exp(param:d)}; return(uret:valueFn.0,zero)"},
-		"E":  {"user valueFn(); store {v=uret:valueFn.0,e=opq:Exp(param:d)}; return(uret:valueFn.0,zero)"},
+		"A":  {"user a2(); store {v=uret:a2.0,e=opq:Exp(param:a3)}; return(uret:a2.0,zero)"},
+		"E":  {"user a2(); store {v=uret:a2.0,e=opq:Exp(param:a3)}; return(uret:a2.0,zero)"},
 		"L+": {"return(field:v(mapold),const:true)"},
 		"L0": {"return(field:v(mapold),const:true)"},
 	},
 	"GetOrSet": {
-		"A":  {"store {v=param:v,e=opq:Exp(param:d)}; return(param:v,zero)"},
-		"E":  {"store {v=param:v,e=opq:Exp(param:d)}; return(param:v,zero)"},
+		"A":  {"store {v=param:a2,e=opq:Exp(param:a3)}; return(param:a2,zero)"},
+		"E":  {"store {v=param:a2,e=opq:Exp(param:a3)}; return(param:a2,zero)"},
 		"L+": {"return(field:v(mapold),const:true)"},
 		"L0": {"return(field:v(mapold),const:true)"},
 	},
@@ -103,23 +103,23 @@ var goldenTables = map[string]map[string][]string{
 	},
 	"Range": {
 		"E nilarg=false":  {"continue=const:true; return()"},
-		"L+ nilarg=false": {"user f(rangekey,field:v(mapold)); continue=uret:f.0; return()"},
-		"L0 nilarg=false": {"user f(rangekey,field:v(mapold)); continue=uret:f.0; return()"},
+		"L+ nilarg=false": {"user a1(rangekey,field:v(mapold)); continue=uret:a1.0; return()"},
+		"L0 nilarg=false": {"user a1(rangekey,field:v(mapold)); continue=uret:a1.0; return()"},
 		"nilarg=true":     {"return()"},
 	},
 	"Set": {
-		"-": {"store {v=param:v,e=opq:Exp(param:d)}; return()"},
+		"-": {"store {v=param:a2,e=opq:Exp(param:a3)}; return()"},
 	},
 	"SetDefault": {
-		"-": {"store {v=param:v,e=opq:Exp(const:-1000000000)}; return()"},
+		"-": {"store {v=param:a2,e=opq:Exp(const:-1000000000)}; return()"},
 	},
 	"SetDefaultExpiration": {
-		"": {"setting defaultExpiration=param:defaultExpiration; return()"},
+		"": {"setting defaultExpiration=param:a1; return()"},
 	},
 	"SetEvictedCallback": {
-		"": {"setting evictedCallback=param:evictedCallback; return()"},
+		"": {"setting evictedCallback=param:a1; return()"},
 	},
 	"SetForever": {
-		"-": {"store {v=param:v,e=opq:Exp(const:-2000000000)}; return()"},
+		"-": {"store {v=param:a2,e=opq:Exp(const:-2000000000)}; return()"},
 	},
 }
